@@ -184,6 +184,13 @@ def oracle(scn) -> core.CaseResult:
                     break
         if scn.get("late_first_release"):
             res.cls("first_release_after_the_start")
+    # inside every call the model clock a user module can read is the time of that step
+    for c in calls:
+        if len(c) > 6 and isinstance(c[6], dict) and "_time" in c[6] and c[3] is not None:
+            want = np.datetime64(meta["start"], "s") + np.timedelta64(int(c[3]) * sim.DT, "s")
+            if not res.check(np.datetime64(c[6]["_time"], "s") == want, "clock_inside_call",
+                             f"{c[1]}.{c[2]} at step {c[3]}: the model clock reads {c[6]['_time']}, expected {want}"):
+                break
     decoys = [c for c in calls if c[5] != "real"]
     res.check(not decoys, "decoy_ran", f"a same-named module from sys.path ran instead of the file given by path: {decoys[:2]}")
     recorded = [s for s in SLOTS if spell[s] != "stock"]
